@@ -41,6 +41,7 @@ struct sched {
     int current = -1;
     std::vector<tstate> st;
     std::vector<std::uint64_t> blocked_seq;
+    std::vector<char> accessed;          // per thread: did it access memory since its last spin hook?
     std::uint64_t write_seq = 0;
     std::uint64_t steps = 0;
     std::uint64_t max_steps = 2000000;
@@ -193,6 +194,11 @@ inline void fail_exit(sched& S, int code, const char* why) {
     {
         std::lock_guard<std::mutex> lk(S.logm);
         for (auto& nt : S.notes) std::fprintf(stdout, "H %llu %s\n", static_cast<unsigned long long>(nt.first), nt.second.c_str());
+        if (S.log_pre)
+            for (auto& e : S.log)
+                std::fprintf(stdout, "E %llu %d %d %d %llx %llx %d %llu\n", static_cast<unsigned long long>(e.seq), e.tid, e.kind,
+                             e.obj, static_cast<unsigned long long>(e.addr), static_cast<unsigned long long>(e.val), e.ok,
+                             static_cast<unsigned long long>(e.step));
     }
     std::fflush(stdout);
     _exit(code);
@@ -223,7 +229,16 @@ inline void hook_pre(int kind, int obj, const volatile void* addr) {
     bool is_write = (kind == yakushima::verif::k_store || kind == yakushima::verif::k_cas ||
                      kind == yakushima::verif::k_rmw || kind == yakushima::verif::k_retire);
     if (is_write) ++S.write_seq;
-    yield_locked(S, lk, my_tid, kind == yakushima::verif::k_spin);
+    // a spin hook means "waiting for a write" only if the thread has looked at memory since its previous spin hook:
+    // two spin hooks in a row (lock(): test, pause) must not count as waiting twice for the same observation
+    bool waits = false;
+    if (kind == yakushima::verif::k_spin) {
+        waits = S.accessed[static_cast<std::size_t>(my_tid)] != 0;
+        S.accessed[static_cast<std::size_t>(my_tid)] = 0;
+    } else {
+        S.accessed[static_cast<std::size_t>(my_tid)] = 1;
+    }
+    yield_locked(S, lk, my_tid, waits);
     if (S.log_pre) {
         // the access happens right after this point, before the next scheduling point
         std::lock_guard<std::mutex> lk2(S.logm);
@@ -267,6 +282,7 @@ inline void run(std::vector<std::function<void()>> bodies) {
     S.n = static_cast<int>(bodies.size());
     S.st.assign(S.n, T_NEW);
     S.blocked_seq.assign(S.n, 0);
+    S.accessed.assign(static_cast<std::size_t>(S.n), 1);
     S.current = -1;
     S.trace.clear();
     if (S.mode == 1 && S.prio.empty()) {
